@@ -450,3 +450,18 @@ func FormatOf(t *SType, list bool) val.Format {
 	}
 	return f
 }
+
+// AbsentKeyComponent proposes a key value of type t that generated trees are unlikely to hold ("" if none).
+func AbsentKeyComponent(r *rand.Rand, t *SType) string {
+	switch t.Base {
+	case "string":
+		return "zz-absent"
+	case "boolean", "enumeration", "identityref", "bits", "empty", "binary":
+		return ""
+	case "decimal64":
+		return "77.5"
+	case "int8", "uint8":
+		return "77"
+	}
+	return "7777"
+}
